@@ -122,6 +122,32 @@ def r14c(chk, rid='R14.c'):
            'the macros of the removed profiles stay usable: add a profile with macro foo, remove all, add a profile that uses {foo} without defining it - accepted, while a fresh registry raises KeyError')
     other = ast.unparse(ast.Module(body=allb[0].orelse, type_ignores=[]))
     chk.ob(rid, P, 'Profiles.removeProfile', 'removing one profile with macros re-expands the rest', "self._rawProfiles[profile]['macros']" in other and 'self._resetProperties()' in other, '')
+    # the re-expansion must depend on nothing but "the removed profile had macros"
+    resets = [c for c in ast.walk(allb[0].orelse[0] if allb[0].orelse else fn) if False]
+    ctrl = []
+    for n in ast.walk(ast.Module(body=allb[0].orelse, type_ignores=[])):
+        if isinstance(n, ast.If) and any(isinstance(c, ast.Call) and call_name(c) == 'self._resetProperties' for s2 in n.body for c in ast.walk(s2)):
+            ctrl.append(n)
+    okc = len(ctrl) == 1
+    if okc:
+        t = ctrl[0].test
+        if isinstance(t, ast.Name):
+            # a flag: set to True only under a truthiness test of the removed profile's macros
+            setters = [x for x in ast.walk(fn) if isinstance(x, ast.Assign) and text(x.targets[0]) == t.id and text(x.value) == 'True']
+            okc = bool(setters) and all(isinstance(m.parents.get(x), ast.If) and text(m.parents[x].test) == "self._rawProfiles[profile]['macros']" for x in setters)
+        else:
+            okc = text(t) in ("self._rawProfiles[profile]['macros']", 'macros')
+    chk.ob(rid, P, 'Profiles.removeProfile', 'the rest is re-expanded whenever the removed profile had macros (no further condition)', okc,
+           'macros of the removed profile that shadow a macro of another profile stay compiled into the remaining patterns: add + remove does not restore the verdicts')
+    # derived state is recomputed, never patched
+    for q, f in m.functions():
+        if not q.startswith('Profiles.'):
+            continue
+        for c in ast.walk(f):
+            if isinstance(c, ast.Call) and isinstance(c.func, ast.Attribute) and text(c.func.value) == 'self._usedMacros' and c.func.attr in ('pop', 'clear', 'popitem', '__delitem__'):
+                chk.ob(rid, P, q, f'`{text(c)[:60]}`', False, 'the macro environment is derived state: removing single entries cannot restore a macro that the removed one was shadowing - it has to be recomputed from the raw profiles')
+            if isinstance(c, ast.Delete) and any('self._usedMacros' in text(t) for t in c.targets):
+                chk.ob(rid, P, q, f'`{text(c)[:60]}`', False, 'the macro environment is derived state and must be recomputed, not patched')
     rp = ast.unparse(chk.repo.fn(P, 'Profiles._resetProperties'))
     ok = 'macros = Profiles._TOKEN_MACROS.copy()' in rp and 'macros.update(Profiles._MACROS.copy())' in rp and "macros.update(self._rawProfiles[profile]['macros'])" in rp and 'self._usedMacros = macros' in rp and 'self._profilesProperties.clear()' in rp
     chk.ob(rid, P, 'Profiles._resetProperties', 'environment = built-in macros + macros of the remaining profiles; all tables re-expanded from the raw patterns', ok, 'history leaks into the environment')
